@@ -97,9 +97,32 @@ NAnn2 == { NBoxed(a) : a \in Take(NAssSeq, NAnn) }
 IProgs == Progs(Take(IAsgSeq, NAsg), Take(IGrdSeq, NGrd), IAnn, Take(IAsgSeq, NInA), Take(IGrdSeq, NInG), IAsgSeq[1])
 NProgs == Progs(Take(NAsgSeq, NAsg), Take(NGrdSeq, NGrd), NAnn2, Take(NAsgSeq, NInA), Take(NGrdSeq, NInG), NAsgSeq[1])
 Trip(d, c, P, Q) == [dom |-> d, prog |-> c, pre |-> P, post |-> Q]
+\* ---------------------------------------------------------------- "branch on a temporary" programs (integer)
+\* assignment(s) to x, then a conditional whose TEST reads x while its branches assign y from expressions without x, with
+\* postconditions that talk about y only: the weakest preconditions of both branches do not mention the assigned variable,
+\* only the test does.  Also: nested conditionals, the shape after a loop, and inside a loop body.
+TmpAX == Take(<< Asg("x", Plus(X, N(1))), Asg("x", Minus(X, N(1))), Asg("x", Minus(Minus(X, Y), N(1))) >>, IF Deep THEN 3 ELSE 2)
+TmpGX == Take(<< Lt(X, N(2)), Lt(N(0), X), Not(Lt(X, Y)) >>, IF Deep THEN 3 ELSE 2)
+TmpBY == { Asg("y", N(1)), Asg("y", Plus(Y, N(1))) }
+TmpCY == { Asg("y", N(0)), Skip }
+TmpPosts == Take(<< Eq(Y, N(1)), Le(Y, N(0)), Lt(N(0), Y), Not(Eq(Y, N(1))) >>, IF Deep THEN 4 ELSE 2)
+TmpIfs == { If(g, b, c) : g \in TmpGX, b \in TmpBY, c \in TmpCY }
+TmpNested == { If(p[1], If(p[2], b, c), c) : p \in { q \in TmpGX \X TmpGX : q[1] # q[2] }, b \in TmpBY, c \in TmpCY }
+TmpProgs ==
+  LET first == IAsgSeq[1]  g1 == IGrdSeq[1]
+      anns == IAnn
+      inner == IF Deep THEN TmpIfs ELSE { If(g, Asg("y", N(1)), Asg("y", N(0))) : g \in TmpGX }
+  IN { SeqC(a, i) : a \in TmpAX, i \in TmpIfs }
+     \cup { SeqC(a, i) : a \in TmpAX, i \in (IF Deep THEN TmpNested ELSE { If(Lt(X, N(2)), If(Lt(N(0), X), b, c), c) : b \in TmpBY, c \in TmpCY }) }
+     \cup { SeqC(a, SeqC(Asg("x", Minus(X, N(1))), i)) : a \in TmpAX, i \in inner }
+     \cup { SeqC(While(g1, n, first), SeqC(a, i)) : n \in anns, a \in TmpAX, i \in inner }
+     \cup { While(g1, n, SeqC(a, i)) : n \in anns, a \in TmpAX, i \in inner }
+TmpTriples == { Trip("int", c, IBox, Q) : c \in TmpProgs, Q \in TmpPosts }
+              \cup { Trip("int", c, IBoxed(WPV(c, Q)[1]), Q) : c \in TmpProgs, Q \in TmpPosts }
 \* preconditions: the pool, and  box & wp(c, Q)  (the weakest precondition the reference computes: {wp(c,Q)} c {Q})
 ITriples == { Trip("int", c, IBoxed(P), Q) : c \in IProgs, P \in Take(IAssSeq, NPre), Q \in Take(IAssSeq, NPost) }
             \cup { Trip("int", c, IBoxed(WPV(c, Q)[1]), Q) : c \in IProgs, Q \in Take(IAssSeq, NPost) }
+            \cup TmpTriples
 NTriples == { Trip("nat", c, NBoxed(P), Q) : c \in NProgs, P \in Take(NAssSeq, NPre), Q \in Take(NAssSeq, NNatPost) }
             \cup { Trip("nat", c, NBoxed(WPV(c, Q)[1]), Q) : c \in NProgs, Q \in Take(NAssSeq, NNatPost) }
 BoxD(d) == IF d = "int" THEN BoxOf(IntLo, IntHi) ELSE BoxOf(NatLo, NatHi)
